@@ -52,15 +52,15 @@ def classifyAgg (size : Nat) (elems : List Elem) : ArgClass :=
   else .regs ((List.range ((size + 7) / 8)).map (ebClass elems))
 
 /-- how an object crosses the boundary when registers are available: MEMORY, or one register per eightbyte
-    given as (is SSE?, offset of the first object byte it carries) -/
+    given as (class, offset of the first object byte it carries) -/
 inductive Image where
   | memory
-  | regs (rs : List (Bool × Nat))
+  | regs (rs : List (Class × Nat))
 deriving DecidableEq, Repr
 
-def imageOfClasses : List Class → Nat → List (Bool × Nat)
+def imageOfClasses : List Class → Nat → List (Class × Nat)
   | [], _ => []
-  | c :: cs, k => (decide (c = .sse), 8 * k) :: imageOfClasses cs (k + 1)
+  | c :: cs, k => (c, 8 * k) :: imageOfClasses cs (k + 1)
 
 def regImage (v : View) : Image :=
   match classifyAgg v.size v.elems with
@@ -158,10 +158,13 @@ def kindRegs (pk : PassKind) (v : View) : List (Nat × RegTy) :=
   | .void => []
   | .memory => []
 
+/-- register class LLVM's x86-64 convention uses for a scalar of this type -/
+def regCls (r : RegTy) : Class := if r.isSSE then .sse else .integer
+
 def kindImage (pk : PassKind) (v : View) : Image :=
   match pk with
   | .memory => .memory
-  | _ => .regs ((kindRegs pk v).map fun p => (p.2.isSSE, p.1))
+  | _ => .regs ((kindRegs pk v).map fun p => (regCls p.2, p.1))
 
 /-- all bytes of the scalar `e` lie inside the byte range one of the registers carries -/
 def covered (regs : List (Nat × RegTy)) (e : Elem) : Bool :=
